@@ -300,6 +300,190 @@ Qed.
 Lemma fmd_counts_ok : forall v, counts_ok (find_min_denominations v).
 Proof. intros v. exact (fmd_loop_counts_ok dens_desc v). Qed.
 
+(* ---------- the Qi refund of a reverted conversion ---------- *)
+
+Lemma denoms_sum_app : forall a b, denoms_sum (a ++ b) = denoms_sum a + denoms_sum b.
+Proof. induction a as [|p a IH]; intros b; simpl; [reflexivity|]. unfold denoms_sum in *. simpl. rewrite IH. lia. Qed.
+
+Lemma denoms_sum_filter_split : forall f l,
+  denoms_sum (filter f l) + denoms_sum (filter (fun p => negb (f p)) l) = denoms_sum l.
+Proof.
+  intros f. induction l as [|p l IH]; [reflexivity|]. simpl.
+  destruct (f p); simpl; unfold denoms_sum in *; simpl; lia.
+Qed.
+
+Lemma counts_ok_filter : forall f l, counts_ok l -> counts_ok (filter f l).
+Proof.
+  intros f l H. unfold counts_ok in *. rewrite Forall_forall in *. intros p Hp.
+  apply filter_In in Hp. apply H. tauto.
+Qed.
+
+Lemma denoms_sum_nonneg : forall l, counts_ok l -> 0 <= denoms_sum l.
+Proof.
+  induction 1 as [|p l Hp _ IH]; [unfold denoms_sum; simpl; lia|].
+  unfold denoms_sum in *. simpl. nia.
+Qed.
+
+Lemma refund_qi_spec : forall v gas,
+  0 <= v -> v < two64 * top_den -> 0 <= gas ->
+  let '(t, i, g, ok) := refund_qi v gas in
+  0 <= dust v /\ 0 <= t <= v - dust v /\ 0 <= i <= max_output_index /\ 0 <= g /\
+  g = gas - i * call_value_transfer_gas /\
+  (ok = true -> t = v - dust v) /\
+  (denoms_count (filter above_trim (find_min_denominations v)) * call_value_transfer_gas <= gas ->
+   denoms_count (filter above_trim (find_min_denominations v)) <= max_output_index -> t = v - dust v).
+Proof.
+  intros v gas Hv Hg Hgas. use_params. unfold refund_qi, mint_denoms, dust.
+  pose proof (counts_ok_filter above_trim _ (fmd_counts_ok v)) as Hok.
+  pose proof (counts_ok_filter (fun p => negb (above_trim p)) _ (fmd_counts_ok v)) as Hok2.
+  pose proof (denoms_sum_nonneg _ Hok2) as Hd.
+  pose proof (denoms_sum_filter_split above_trim (find_min_denominations v)) as Hsplit.
+  rewrite (find_min_denominations_sum v Hv Hg) in Hsplit.
+  pose proof (mint_fold_spec (filter above_trim (find_min_denominations v)) 0 0 gas true Hok Hgas ltac:(lia)) as M.
+  destruct (fold_left _ (filter above_trim (find_min_denominations v)) (0, 0, gas, true)) as [[[t i] g] ok].
+  destruct M as (A & B & C & D & E & F).
+  split; [lia|]. split; [lia|]. split; [lia|]. split; [lia|]. split; [lia|]. split.
+  - intros H. destruct (E H) as (_ & ? & ?). lia.
+  - intros H1 H2. assert (Hk : ok = true) by (apply F; [reflexivity|lia|lia]).
+    destruct (E Hk) as (_ & ? & ?). lia.
+Qed.
+
+(* the full statement "a reverted conversion returns exactly the original" is false on the Qi side:
+   with no ETX gas nothing is refunded, and the trim rule drops the small pieces *)
+Lemma refund_qi_original_refuted :
+  (exists v, 0 <= v < two64 * top_den /\ 0 < v - dust v /\ fst (fst (fst (refund_qi v 0))) = 0)
+  /\ (exists v gas, 0 <= v < two64 * top_den /\
+        denoms_count (filter above_trim (find_min_denominations v)) * call_value_transfer_gas <= gas /\
+        fst (fst (fst (refund_qi v gas))) < v).
+Proof.
+  split.
+  - exists 5000000. vm_compute. repeat split; discriminate || reflexivity.
+  - exists 1234, 1000000. vm_compute. repeat split; discriminate || reflexivity.
+Qed.
+
+(* what the trim rule drops is less than the smallest refundable denomination *)
+Lemma fmd_loop_index : forall dens amount p, In p (fmd_loop dens amount) -> In (fst p) (map fst dens).
+Proof.
+  induction dens as [|[i d] rest IH]; intros amount p Hin; simpl in Hin; [contradiction|].
+  destruct (amount / d =? 0); [right; eauto|].
+  destruct (0 <? amount - amount / d * d).
+  - destruct Hin as [<-|Hin]; [left; reflexivity|right; eauto].
+  - destruct (amount - amount / d * d =? 0); [|contradiction].
+    destruct Hin as [<-|[]]. left; reflexivity.
+Qed.
+
+Lemma filter_all : forall (A : Type) (f : A -> bool) l, (forall x, In x l -> f x = true) -> filter f l = l.
+Proof.
+  induction l as [|x l IH]; intros H; [reflexivity|]. simpl. rewrite (H x (or_introl eq_refl)).
+  f_equal. apply IH. intros y Hy. apply H. right; assumption.
+Qed.
+
+Lemma fmd_loop_low_sum : forall k hi lo amount,
+  Forall good_pair hi -> Forall good_pair lo ->
+  Forall (fun p => k < fst p) hi -> Forall (fun p => fst p <= k) lo ->
+  hi <> [] -> lo <> [] -> last (map snd lo) 0 = 1 ->
+  0 <= amount -> amount < two64 * snd (hd (0, 0) hi) ->
+  denoms_sum (filter (fun p => negb (k <? fst p)) (fmd_loop (hi ++ lo) amount)) < snd (last hi (0, 0)).
+Proof.
+  intros k hi lo. induction hi as [|[i d] hi IH]; intros amount Ghi Glo Khi Klo Hne Hlo Hlast Ha Hb; [congruence|].
+  inversion Ghi as [|? ? Gp Ghi']; subst. destruct Gp as (_ & Hdpos & Hdlt). simpl in Hdpos, Hdlt.
+  inversion Khi as [|? ? Kp Khi']; subst. simpl in Kp. cbn [hd snd] in Hb.
+  assert (Hlow_all : forall amt, filter (fun p => negb (k <? fst p)) (fmd_loop lo amt) = fmd_loop lo amt).
+  { intros amt. apply filter_all. intros p Hp. apply fmd_loop_index in Hp.
+    apply in_map_iff in Hp. destruct Hp as (q & Hq & Hin). rewrite Forall_forall in Klo. specialize (Klo q Hin).
+    apply negb_true_iff. apply Z.ltb_ge. lia. }
+  assert (Hlo_sum : forall amt, 0 <= amt -> amt < d -> denoms_sum (fmd_loop lo amt) = amt).
+  { intros amt H0 H1. apply fmd_loop_sum; try assumption.
+    - intros; congruence.
+    - intros _. split; [assumption|]. destruct lo as [|[i' d'] lo']; [congruence|]. cbn [hd snd].
+      inversion Glo as [|? ? Gp' _]; subst. destruct Gp' as (_ & Hd' & _). simpl in Hd'. pose proof two64_pos. nia. }
+  pose proof (Z.mod_pos_bound amount d Hdpos) as Hmod.
+  pose proof (Z.div_mod amount d ltac:(lia)) as Hdm.
+  assert (Hrest : forall amt, 0 <= amt -> amt < d -> hi <> [] ->
+            denoms_sum (filter (fun p => negb (k <? fst p)) (fmd_loop (hi ++ lo) amt)) < snd (last hi (0, 0))).
+  { intros amt H0 H1 Hhi. apply IH; try assumption.
+    destruct hi as [|[i2 d2] hi2]; [congruence|]. cbn [hd snd].
+    inversion Ghi' as [|? ? Gp2 _]; subst. destruct Gp2 as (_ & Hd2 & _). simpl in Hd2. pose proof two64_pos. nia. }
+  assert (Hi : (k <? i) = true) by (apply Z.ltb_lt; lia).
+  cbn [app fmd_loop].
+  destruct hi as [|h2 hi2].
+  - (* last refundable denomination *)
+    cbn [last app]. cbn [snd].
+    destruct (Z.eqb_spec (amount / d) 0) as [Hz|Hz].
+    + assert (amount < d) by (rewrite Hz in Hdm; lia).
+      rewrite Hlow_all, Hlo_sum by lia. lia.
+    + replace (amount - amount / d * d) with (amount mod d) by lia.
+      destruct (Z.ltb_spec 0 (amount mod d)).
+      * cbn [filter fst]. rewrite Hi. cbn [negb]. rewrite Hlow_all, Hlo_sum by lia. lia.
+      * assert (Hm0 : amount mod d = 0) by lia. rewrite Hm0. cbn [Z.eqb filter fst]. rewrite Hi. cbn [negb].
+        unfold denoms_sum. simpl. lia.
+  - assert (Hl : last ((i, d) :: h2 :: hi2) (0, 0) = last (h2 :: hi2) (0, 0)) by reflexivity.
+    rewrite Hl.
+    destruct (Z.eqb_spec (amount / d) 0) as [Hz|Hz].
+    + assert (amount < d) by (rewrite Hz in Hdm; lia).
+      apply Hrest; [lia|lia|discriminate].
+    + replace (amount - amount / d * d) with (amount mod d) by lia.
+      destruct (Z.ltb_spec 0 (amount mod d)).
+      * cbn [filter fst]. rewrite Hi. cbn [negb]. apply Hrest; [lia|lia|discriminate].
+      * assert (Hm0 : amount mod d = 0) by lia. rewrite Hm0. cbn [Z.eqb filter fst]. rewrite Hi. cbn [negb].
+        unfold denoms_sum. cbn [fold_right].
+        assert (Hlast_pos : Forall good_pair (h2 :: hi2) -> 0 < snd (last (h2 :: hi2) (0, 0))).
+        { clear. generalize h2. induction hi2 as [|x l IHl]; intros h G.
+          - inversion G as [|? ? (_ & ? & _) _]; subst. simpl. assumption.
+          - inversion G; subst. change (last (h :: x :: l) (0, 0)) with (last (x :: l) (0, 0)). apply IHl. assumption. }
+        apply Hlast_pos. assumption.
+Qed.
+
+Definition dens_hi : list (Z * Z) := filter above_trim dens_desc.
+Definition dens_lo : list (Z * Z) := filter (fun p => negb (above_trim p)) dens_desc.
+Definition smallest_refundable : Z := snd (last dens_hi (0, 0)).
+
+Definition trim_split_ok : bool :=
+  forallb pair_ok dens_hi && forallb pair_ok dens_lo
+  && forallb (fun p => max_trim_denomination <? fst p) dens_hi
+  && forallb (fun p => fst p <=? max_trim_denomination) dens_lo
+  && negb (Nat.eqb (length dens_hi) 0) && negb (Nat.eqb (length dens_lo) 0)
+  && (last (map snd dens_lo) 0 =? 1)
+  && (smallest_refundable =? den_value (max_trim_denomination + 1)).
+Lemma trim_split_ok_true : trim_split_ok = true.
+Proof. vm_compute. reflexivity. Qed.
+Lemma dens_desc_split : dens_desc = dens_hi ++ dens_lo.
+Proof. vm_compute. reflexivity. Qed.
+
+Lemma forallb_pair_ok_good : forall l, forallb pair_ok l = true -> Forall good_pair l.
+Proof.
+  intros l H. rewrite forallb_forall in H. apply Forall_forall. intros p Hp. specialize (H p Hp).
+  unfold pair_ok in H. do 2 (apply andb_prop in H; destruct H as [H ?]).
+  unfold good_pair. repeat split; [apply Z.eqb_eq|apply Z.ltb_lt|apply Z.ltb_lt]; assumption.
+Qed.
+
+Lemma dust_lt_smallest_refundable : forall v,
+  0 <= v -> v < two64 * top_den -> dust v < smallest_refundable.
+Proof.
+  intros v Hv Hg. unfold dust, find_min_denominations, smallest_refundable.
+  pose proof trim_split_ok_true as T. unfold trim_split_ok in T.
+  apply andb_prop in T; destruct T as [T _].
+  apply andb_prop in T; destruct T as [T Hlast1].
+  apply andb_prop in T; destruct T as [T Hlone].
+  apply andb_prop in T; destruct T as [T Hhine].
+  apply andb_prop in T; destruct T as [T Hlok].
+  apply andb_prop in T; destruct T as [T Hhik].
+  apply andb_prop in T; destruct T as [Hhigood Hlogood].
+  revert Hv Hg. unfold top_den. rewrite dens_desc_split.
+  generalize dens_hi dens_lo Hhigood Hlogood Hhik Hlok Hhine Hlone Hlast1. clear.
+  intros hi lo Hhigood Hlogood Hhik Hlok Hhine Hlone Hlast1 Hv Hg.
+  apply (fmd_loop_low_sum max_trim_denomination hi lo v).
+  - apply forallb_pair_ok_good; assumption.
+  - apply forallb_pair_ok_good; assumption.
+  - rewrite forallb_forall in Hhik. apply Forall_forall. intros p Hp. apply Z.ltb_lt. apply Hhik; assumption.
+  - rewrite forallb_forall in Hlok. apply Forall_forall. intros p Hp. apply Z.leb_le. apply Hlok; assumption.
+  - intros ->. simpl in Hhine. discriminate.
+  - intros ->. simpl in Hlone. discriminate.
+  - apply Z.eqb_eq; assumption.
+  - assumption.
+  - destruct hi as [|h hi']; [simpl in Hhine; discriminate|]. exact Hg.
+Qed.
+
 (* ---------- the conversion block ---------- *)
 
 Lemma mapM_In : forall (A B : Type) (f : A -> option B) l r y,
@@ -833,6 +1017,10 @@ Module ShapeDigest.
     "7508d73d354a3e0277120c860960ccdbc78482944e98a314fe8f1d7d0ede4fe7"%string.
   Definition reviewed_mint_shape_sha256 : string :=
     "7899e813144370d3155d40a865b2520cecfd749c70778e2109b038591249402e"%string.
+  Definition reviewed_revert_qi_shape_sha256 : string :=
+    "0933c10a98b046aa283bed35e7ab20a527615b5cd31dce08fd59f8a2c7a84698"%string.
+  Definition reviewed_revert_quai_shape_sha256 : string :=
+    "404556dd33a8f9efe317cda5edab573b4e81c88a0ac9f8e5f101e6776e85685b"%string.
 End ShapeDigest.
 Definition reviewed_shape_sha256 := ShapeDigest.reviewed_shape_sha256.
 Definition reviewed_mint_shape_sha256 := ShapeDigest.reviewed_mint_shape_sha256.
@@ -845,6 +1033,11 @@ Proof. split; vm_compute; reflexivity. Qed.
 Lemma mint_shape_reviewed :
   mint_shape_sha256 = reviewed_mint_shape_sha256 /\ mint_shape_len = reviewed_mint_shape_len.
 Proof. split; vm_compute; reflexivity. Qed.
+
+Lemma revert_shapes_reviewed :
+  revert_qi_shape_sha256 = ShapeDigest.reviewed_revert_qi_shape_sha256 /\ revert_qi_shape_len = 31 /\
+  revert_quai_shape_sha256 = ShapeDigest.reviewed_revert_quai_shape_sha256 /\ revert_quai_shape_len = 11.
+Proof. repeat split; vm_compute; reflexivity. Qed.
 
 Lemma rewards_positive : forall k logdiff diff kqi,
   0 <= k -> 0 <= logdiff -> 0 <= diff -> 0 < kqi ->
